@@ -531,12 +531,25 @@ def delete_old_backups(options):
         os.unlink(os.path.join(options.repository, fname))
 
 
+def check_filedate_unused(options, tnow):
+    # File names are all that orders the backups, and they have a resolution
+    # of one second: a second file with the same time stamp (a full backup
+    # and an increment, say) could not be told apart from an older one.
+    for ext in '.fs', '.fsz', '.deltafs', '.deltafsz':
+        other = os.path.join(options.repository,
+                             gen_filename(options, ext, tnow))
+        if os.path.exists(other):
+            raise WouldOverwriteFiles(
+                'Cannot overwrite existing file: %s' % other)
+
+
 def do_full_backup(options):
     options.full = True
     tnow = gen_filedate(options)
     dest = os.path.join(options.repository, gen_filename(options, now=tnow))
     if os.path.exists(dest):
         raise WouldOverwriteFiles('Cannot overwrite existing file: %s' % dest)
+    check_filedate_unused(options, tnow)
     # Find the file position of the last completed transaction.
     fs = FileStorage(options.file, read_only=True)
     # Note that the FileStorage ctor calls read_index() which scans the file
@@ -570,6 +583,7 @@ def do_incremental_backup(options, reposz, repofiles):
     dest = os.path.join(options.repository, gen_filename(options, now=tnow))
     if os.path.exists(dest):
         raise WouldOverwriteFiles('Cannot overwrite existing file: %s' % dest)
+    check_filedate_unused(options, tnow)
     # Find the file position of the last completed transaction.
     fs = FileStorage(options.file, read_only=True)
     # Note that the FileStorage ctor calls read_index() which scans the file
